@@ -146,12 +146,6 @@ def sErr : Err → String
   | .keyError => "KeyError" | .typeError => "TypeError" | .attrError => "AttributeError" | .ccsdsError => "CcsdsError"
   | .unboundLocal => "UnboundLocalError" | .valueError => "ValueError" | .nameError => "NameError"
 
-/-- the loaded TDM as a message again (what `dumps` would be given): only a single set is a `MeasureSet` -/
-def tdmOfSets (r : String × List (List Obs)) : R Tdm :=
-  match r.2 with
-  | [set] => .ok { scale := r.1, obs := set }
-  | _ => .error .typeError       -- `detect2dump`: a list of MeasureSet is not a known object
-
 def reply (stage : String) (x : R α) (k : α → String) : String :=
   match x with
   | .ok v => k v
